@@ -109,6 +109,9 @@ func (s *S) Elem(i int) int  { s.mu.Lock(); defer s.mu.Unlock(); p := &s.xs[i]; 
 func (s *S) ElemLate(i int)  { s.mu.Lock(); p := &s.xs[i]; s.mu.Unlock(); p.v = 1 }
 func (s *S) ElemLeak(i int)  { s.mu.Lock(); p := &s.xs[i]; keepI = p; s.mu.Unlock() }
 
+func (t *T) Order()    { t.a = 1; close(t.ch) }
+func (t *T) OrderBad() { if t.b > 0 { t.a = 1 }; t.ch <- 1 }
+
 var keepI *Inner
 var keep func()
 
@@ -215,6 +218,34 @@ func selfTest() int {
 			bad++
 		}
 	}
+	// call facts
+	type ce struct{ caller, callee, how, locks, written string }
+	gotc := map[string]outCall{}
+	for _, c := range a.outCalls() {
+		gotc[c.Caller+"|"+c.Callee+"|"+c.How] = c
+	}
+	for _, e := range []ce{
+		{"T.CallsHelper", "T.helper", "HCall", "T.mu/W", ""},
+		{"New", "T.Loop", "HGo", "", "T.a"},
+		{"T.UsesWith", "T.with", "HCall", "", ""},
+		{"T.Order", "close(T.ch)", "HCall", "", "T.a"},
+		{"T.OrderBad", "send(T.ch)", "HCall", "", ""},
+		{"T.Sel", "recv(T.ch)", "HCall", "T.mu/W", ""},
+	} {
+		c, ok := gotc[e.caller+"|"+e.callee+"|"+e.how]
+		if !ok {
+			fmt.Printf("selftest FAIL: no call fact %s -> %s %s\n", e.caller, e.callee, e.how)
+			bad++
+			continue
+		}
+		if l, w := strings.Join(c.Locks, ","), strings.Join(c.Written, ","); l != e.locks || w != e.written {
+			fmt.Printf("selftest FAIL: call %s -> %s: locks {%s} written {%s}, expected {%s} {%s}\n", e.caller, e.callee, l, w, e.locks, e.written)
+			bad++
+		}
+	}
+	if c, ok := gotc["T.Spawn$1|T.helper|HCall"]; ok || c.InGo {
+		_ = c
+	}
 	if bad > 0 {
 		for k, f := range got {
 			if strings.HasPrefix(k, "T.") || strings.HasPrefix(k, "New") {
@@ -223,6 +254,6 @@ func selfTest() int {
 		}
 		return 1
 	}
-	fmt.Printf("selftest ok: %d expectations\n", len(expected)+10)
+	fmt.Printf("selftest ok: %d expectations\n", len(expected)+16)
 	return 0
 }
